@@ -245,7 +245,7 @@ func fanScenario(rnd *hx.Rand, count func(string)) *scenario {
 // schedule; cancelAt >= 0 cancels the caller's Context before that step (the
 // machine has no transition for it: Match itself never looks at the Context,
 // only the outcomes of later controllers change).
-func controlledMatch(r *hx.Run, rnd *hx.Rand, sc *scenario, lim int, cancelAt int) {
+func controlledMatch(r *hx.Run, rnd *hx.Rand, sc *scenario, lim int, cancelAt int) int {
 	old := runtime.GOMAXPROCS(lim)
 	defer runtime.GOMAXPROCS(old)
 	w := newWorld(sc, nil)
@@ -276,6 +276,7 @@ func controlledMatch(r *hx.Run, rnd *hx.Rand, sc *scenario, lim int, cancelAt in
 		res.nerrs = joinedErrors(res.err)
 	}()
 	ok := true
+	nsteps := 0
 	e, got := c.await(func(e pevent) bool { return e.site == "mt.f.spawn" || e.site == "mt.f.wait" })
 	if !got {
 		ok = p.failf("the fan-out goroutine never reached its loop")
@@ -301,6 +302,7 @@ func controlledMatch(r *hx.Run, rnd *hx.Rand, sc *scenario, lim int, cancelAt in
 			break
 		}
 		ok = p.exec(cs[rnd.Intn(len(cs))])
+		nsteps++
 	}
 	witness := func() string {
 		return fmt.Sprintf("lim=%d cancel-before-step=%d scenario=[%s] schedule=[%s]", lim, cancelAt, strings.Join(sc.lines("")[1:], " | "), strings.Join(p.trace, "; "))
@@ -321,7 +323,7 @@ func controlledMatch(r *hx.Run, rnd *hx.Rand, sc *scenario, lim int, cancelAt in
 			hangs.Add(1)
 			r.Fail("", "controlled-schedule(Match): "+p.failure+"; the call did not return even after all goroutines were released "+witness())
 		}
-		return
+		return nsteps
 	}
 	var res result
 	select {
@@ -330,7 +332,7 @@ func controlledMatch(r *hx.Run, rnd *hx.Rand, sc *scenario, lim int, cancelAt in
 		close(c.abort)
 		hangs.Add(1)
 		r.Fail("", "controlled-schedule(Match): every goroutine returned but Match did not "+witness())
-		return
+		return nsteps
 	}
 	close(c.abort)
 	r.Op("f-final", fmt.Sprintf("final=1 errs=%d collected=%d", res.nerrs, p.collected), true)
@@ -354,9 +356,10 @@ func controlledMatch(r *hx.Run, rnd *hx.Rand, sc *scenario, lim int, cancelAt in
 		if res.vr == nil {
 			r.Fail("", "controlled-schedule(Match): no report "+witness())
 		}
-		return
+		return nsteps
 	}
 	for _, f := range oracle(w, res) {
 		r.Fail(f[0], "controlled-schedule(Match): "+f[1]+" "+witness())
 	}
+	return nsteps
 }
